@@ -183,6 +183,18 @@ def make_value_transformer(kind, node):
             def handler(self, n):
                 return ast.Identifier(rot[n.name], n.namespace)
         return type("Rot_" + kind, (V.NodeTransformer,), {"visit_" + kind: handler}), rot.__getitem__
+    if kind == "Empty":
+        # results that are empty / zero / blank: still nodes, still to be put in place
+        def h_list(self, n):
+            return ast.List([])
+
+        def h_str(self, n):
+            return ast.String("")
+
+        def h_int(self, n):
+            return ast.Integer("0")
+        return type("Empty", (V.NodeTransformer,),
+                    {"visit_List": h_list, "visit_String": h_str, "visit_Integer": h_int}), "empty"
     if kind == "Same":
         # every handler returns the very node it was given
         def handler(self, n):
@@ -195,6 +207,13 @@ def make_value_transformer(kind, node):
 def ref_value_map(t, kind, f):
     def go(n):
         k = n[0]
+        if kind == "Empty":
+            if k == "list":
+                return ("list", ())
+            if k == "lit" and n[1] == "str":
+                return ("lit", "str", "")
+            if k == "lit" and n[1] == "int":
+                return ("lit", "int", "0")
         if k == "id":
             return ("id", f(n[1]), n[2]) if kind == "Identifier" else n
         if k == "lit":
@@ -239,7 +258,7 @@ COLLISION_TEXTS = [
 
 
 def judge_value_handlers(ctx, node, before, case, big):
-    for kd in ("Integer", "String", "Identifier", "Same"):
+    for kd in ("Integer", "String", "Identifier", "Same", "Empty"):
         made = make_value_transformer(kd, node)
         if made is None:
             continue
